@@ -89,8 +89,26 @@ def _case(draw, tier="quick"):
         fams = ["gauss", "gauss", "svd", "conflict", "stationary", "lowrank", "rowscaled3"]
         if name in TIE_OK:
             fams += ["dup", "grid", "zero_rows"]
+        if name == "GradDrop":
+            fams += ["zero_rows", "zero_rows"]  # an objective with an exactly-zero gradient (tie-insensitive here)
+        if name in ("Krum", "TrimmedMean") and draw(st.sampled_from([True, False, False])):
+            fams = ["many-rows"]
         fam = draw(st.sampled_from(fams))
-        if fam == "grid":
+        if fam == "many-rows":
+            # dozens of workers: rows sharing a large common component (Krum) / a few rows with huge outliers (TrimmedMean)
+            m = draw(st.integers(26, 44))
+            n = draw(st.sampled_from([4, 8, 16]))
+            J = rng.standard_normal((m, n)) * rng.uniform(0.3, 3.0, size=(m, 1))
+            if name == "Krum":
+                J = J + 10.0 ** draw(st.sampled_from([3, 4])) * np.sign(rng.standard_normal(n))
+                spec["f"] = draw(st.integers(0, 5))
+                spec["k"] = draw(st.integers(1, 3))
+                dtype = "float32" if draw(st.sampled_from([True, True, False])) else dtype
+            else:
+                spec["b"] = draw(st.integers(1, 5))
+                out_rows = rng.choice(m, size=spec["b"], replace=False)
+                J[out_rows] = J[out_rows] + 10.0 ** draw(st.sampled_from([6, 9])) * np.sign(rng.standard_normal((len(out_rows), 1)))
+        elif fam == "grid":
             J = rng.integers(-4, 5, size=(m, n)) / 2.0
         elif fam == "rowscaled3":
             J = build("rowscaled", m, n, rng, {"decades": 1.5})
@@ -145,7 +163,7 @@ def run_case(case) -> Outcome:
     if configured is not None:
         out.cls("equivariance")
     distinct_rows = len({tuple(r) for r in J.tolist()}) == m
-    if case["family"].endswith("+zero_rows"):
+    if case["family"].endswith("+zero_rows") or (name == "GradDrop" and case["family"] == "zero_rows"):
         out.cls("zero-rows")
         distinct_rows = True  # zero rows are exact duplicates of each other, but no score tie is involved for these aggregators
     if not distinct_rows and name not in TIE_OK:
